@@ -286,6 +286,8 @@ def check(ctx: Ctx) -> None:
     check_family(ctx, 'C02.g', ['OFDM', 'OfdmOneTapEqualizer'], floor=1)
     from .c03 import check_delays_applied
     check_delays_applied(ctx, 'C02.h')
+    from ..idioms import check_no_persistent_buffers
+    check_no_persistent_buffers(ctx, 'C02.i', [OF], floor=10)
 
 
 def thorough(ctx: Ctx) -> None:
